@@ -55,7 +55,6 @@ Fixpoint coins_sorted (l : list coin) : bool :=
       end
   end.
 Definition coins_of (l : list coin) : coins := list_to_map l.
-Definition coins_list (c : coins) : list coin := map_to_list c.
 
 (** * stored records *)
 
@@ -256,3 +255,6 @@ Definition cmp_ta : (time * addr) -> (time * addr) -> comparison := lex Z.compar
 Definition cmp_az : (addr * Z) -> (addr * Z) -> comparison := lex addr_cmp Z.compare.
 Definition cmp_zz : (Z * Z) -> (Z * Z) -> comparison := lex Z.compare Z.compare.
 Definition cmp_za : (Z * addr) -> (Z * addr) -> comparison := lex Z.compare addr_cmp.
+
+(* sdk.Coins are kept sorted by denomination *)
+Definition coins_list (c : coins) : list coin := sort_by (fun x y => N.compare x.1 y.1) (map_to_list c).
